@@ -73,6 +73,8 @@ func (p *PreemptionContext) tryPreemption() {
 			zap.String("ds allocation key", p.requiredAsk.GetAllocationKey()),
 			zap.String("allocation name", p.requiredAsk.GetAllocationName()),
 			zap.Int("no.of victims", len(victims)))
+		// only victims that could be marked are announced to the RM
+		preempted := make([]*Allocation, 0, len(victims))
 		for _, victim := range victims {
 			err := victim.MarkPreempted()
 			if err != nil {
@@ -90,9 +92,10 @@ func (p *PreemptionContext) tryPreemption() {
 					zap.String("victimAllocationKey", victim.GetAllocationKey()))
 			}
 			victim.SendPreemptedBySchedulerEvent(p.requiredAsk.GetAllocationKey(), p.requiredAsk.GetApplicationID(), p.application.queuePath)
+			preempted = append(preempted, victim)
 		}
 		p.requiredAsk.MarkTriggeredPreemption()
-		p.application.notifyRMAllocationReleased(victims, si.TerminationType_PREEMPTED_BY_SCHEDULER,
+		p.application.notifyRMAllocationReleased(preempted, si.TerminationType_PREEMPTED_BY_SCHEDULER,
 			"preempting allocations to free up resources to run daemon set ask: "+p.requiredAsk.GetAllocationKey())
 	} else {
 		p.requiredAsk.LogAllocationFailure(common.NoVictimForRequiredNode, true)
